@@ -108,10 +108,12 @@ func unicodeToRune(code []byte) rune {
 
 func readAtLeast(s *Stream, n int64, p *unsafe.Pointer) bool {
 	for s.cursor+n >= s.length {
-		if !s.read() {
+		ok := s.read()
+		// the buffer may have been reallocated (grown) even when no data arrived
+		*p = s.bufptr()
+		if !ok {
 			return false
 		}
-		*p = s.bufptr()
 	}
 	return true
 }
